@@ -301,7 +301,9 @@ def skip_flatten_test(ctx, rng):
             if g.isComposite() and any(c.glyphName not in flat.getGlyphOrder() or flat["glyf"][c.glyphName].isComposite() for c in g.components):
                 ctx.spec_failure(dict(case, glyph=n), "flattened composite %r still has a nested or dangling reference" % n)
                 break
-            if not same_rendering(flat_contours(plain, n), flat_contours(flat, n), tol=2):
+            # (tolerance: a chain of up to three components scaled by 3/2 multiplies the half-unit rounding of the innermost
+            # outline by 27/8 and that of the offsets on the way by 9/4 and 3/2 -- the two builds round at different levels)
+            if not same_rendering(flat_contours(plain, n), flat_contours(flat, n), tol=4.5):
                 ctx.spec_failure(dict(case, glyph=n), "glyph %r renders differently with flattenComponents when %r is not exported" % (n, skip[0]))
                 break
 
